@@ -4,6 +4,7 @@
 -/
 import Driver.Codec
 import Driver.TimeRange
+import Driver.Script
 import SlacModel.Display
 import SlacModel.Json
 import SlacModel.Optimizer
@@ -322,6 +323,7 @@ def step (line : String) : String :=
     | "rr" :: r => runRr r
     | "re" :: r => runRe r
     | "tmrange" :: r => TimeRange.run r
+    | "script" :: r => Script.run charClass caseMap r
     | "chkbool" :: r => runChkbool r
     | _ => none
   r.getD "bad"
